@@ -33,9 +33,13 @@ def batch_oracle(lines, outs):
             res[k] = (f"reported {algs[k]} has invariants [{inv_n[k]}] but the commutator closure of {','.join(colls[k])} "
                       f"has [{c}] (size, centre, (dim:centraliser:copies) per simple type)")
             continue
-        p = py_inv(colls[k])
-        if p != c:
-            res[k] = f"ORACLE-DISAGREEMENT python {p} lean {c}"
+        # second opinion by the independent Python oracle: always on small closures, on a tenth of the large ones
+        # (it is quadratic in the closure size and dominated the thorough tier)
+        size = int(fields(c).get("size", "0"))
+        if size <= 700 or (hash(lines[k]) % 10 == 0):
+            p = py_inv(colls[k])
+            if p != c:
+                res[k] = f"ORACLE-DISAGREEMENT python {p} lean {c}"
     return res
 
 def build_streams(rng, tier):
